@@ -457,6 +457,7 @@ class Ovld:
             if self.linkback:
                 mixin.children.append(self)
         self.mixins += mixins
+        self._update()
 
     def _key_error(self, key, possibilities=None):
         typenames = sigstring(key)
